@@ -204,10 +204,15 @@ class Ctx:
             extra += ["-simulate", "num=%d" % simulate[0], "-depth", str(simulate[1]), "-seed", str(self.seed)]
         if deadlock is False:
             extra += ["-deadlock"]
-        cmd = _tlc_cmd(tla, cfg, self.metadir(), workers or NCPU, extra, jvm)
         t = time.time()
-        rc, out = sh(cmd, timeout=timeout, env=env, cwd=d)
-        r = _parse_tlc(out)
+        for attempt in (1, 2, 3):
+            cmd = _tlc_cmd(tla, cfg, self.metadir(), workers or NCPU, extra, jvm)
+            rc, out = sh(cmd, timeout=timeout, env=env, cwd=d)
+            r = _parse_tlc(out)
+            # retry only failures that are neither a verdict (violation) nor a timeout nor a clean run
+            if rc in (0, 124) or r["violated"]:
+                break
+            self.log("TLC attempt %d failed rc=%d (%s/%s)%s" % (attempt, rc, tla, cfg, " - retrying" if attempt < 3 else ""))
         r["rc"], r["wall_s"] = rc, round(time.time() - t, 1)
         lab = label or ("%s/%s" % (tla, cfg))
         if rc == 124:
@@ -248,9 +253,13 @@ class Ctx:
         extra = []
         if simulate:
             extra += ["-simulate", "num=%d" % simulate[0], "-depth", str(simulate[1]), "-seed", str(self.seed)]
-        cmd = _tlc_cmd(tla, cfg, self.metadir(), workers or NCPU, extra, jvm)
         t = time.time()
-        rc, out = sh(cmd, timeout=timeout, env=env, cwd=d)
+        for attempt in (1, 2, 3):           # a JVM that dies of memory / stack pressure on a busy machine is retried, never a verdict
+            cmd = _tlc_cmd(tla, cfg, self.metadir(), workers or NCPU, extra, jvm)
+            rc, out = sh(cmd, timeout=timeout, env=env, cwd=d)
+            if rc in (0, 124) and not (rc == 124 and not simulate):
+                break
+            self.log("TLC gen attempt %d failed rc=%d (%s/%s)%s" % (attempt, rc, tla, cfg, " - retrying" if attempt < 3 else ""))
         if rc not in (0, 124) or (rc == 124 and not simulate):
             raise Infra("TLC gen failed rc=%d %s/%s\n%s" % (rc, tla, cfg, out[-3000:]))
         r = _parse_tlc(out)
@@ -311,6 +320,9 @@ class Ctx:
                 raise Infra("TLC trace validation timeout (%s)" % what)
             m = re.search(r'<<"MAXPOS", (\d+), (\d+)>>', out)
             if r["violated"] is None and m is None:
+                if attempt == 1:
+                    self.log("TLC trace validation failed rc=%d (%s) - retrying" % (rc, what))
+                    continue
                 raise Infra("TLC trace validation failed rc=%d (%s)\n%s" % (rc, what, out[-3000:]))
             info = {"violated": r["violated"], "maxpos": int(m.group(1)) if m else None, "out": out[-3000:]}
             if attempt == 2:
